@@ -36,8 +36,11 @@ def oracle_script(stmts_text, script):
         return None          # totality is C07
     why = sc.check_pieces(script, stmts_text, pieces)
     if why:
+        # F18: everything agrees except for one extra, final, comment-only piece
+        extra = len(pieces) == len(stmts_text) + 1 and sc.sig_tokens(pieces[-1]) == [] \
+            and sc.check_pieces(script, stmts_text, pieces[:-1]) is None
         return {'input': [ord(c) for c in script], 'kind': 'k_statements', 'observed': why,
-                'written': len(stmts_text), 'returned': len(pieces)}
+                'written': len(stmts_text), 'returned': len(pieces), 'extra_comment_only': extra}
     return None
 
 
@@ -110,6 +113,9 @@ def classify(f, known):
         if k.get('class') == 'paren-semicolon-after-unopened-END' and f.get('kind') == 'k_statements' \
                 and sc.paren_semicolon_after_end(s):
             return k['id']
+        if k.get('class') == 'trailing-comment-only-statement' and f.get('kind') == 'k_statements' \
+                and f.get('extra_comment_only'):
+            return k['id']
     return None
 
 
@@ -117,7 +123,7 @@ def rederive_known(k):
     w = ''.join(map(chr, k['witness']['input']))
     import sqlparse
     n = len(sqlparse.split(w))
-    if k.get('class') == 'paren-semicolon-after-unopened-END' and n != k['witness'].get('expected_statements'):
+    if n != k['witness'].get('expected_statements'):
         return {'input': k['witness']['input'], 'observed': f'{n} statements'}
     return None
 
